@@ -58,7 +58,7 @@ func runBubble(t *testing.T, seed uint64, fn func()) {
 	switch os.Getenv("VERIF_ENGINE") {
 	case "c01", "c02", "smoke":
 		loadVectors()
-	case "c20":
+	case "c20", "c11":
 		c20BigKeys()
 	}
 	func() {
